@@ -23,6 +23,9 @@ var runners = map[string]func(*Ctx){
 	"C13": runC13,
 	"C14": runC14,
 	"C15": runC15,
+	"C16": runC16,
+	"C17": runC17,
+	"C18": runC18,
 	"C19": runC19,
 	"C20": runC20,
 }
@@ -38,7 +41,12 @@ func main() {
 	repo := flag.String("repo", "/repo", "repository working tree (fixtures, sources)")
 	verif := flag.String("verif", "/verif", "verification directory")
 	ops := flag.String("ops", "", "comma-separated ops the driver implements")
+	iso := flag.Bool("isolated", false, "run one call read from stdin in this fresh process and print its result (C16 reference runs)")
 	flag.Parse()
+	if *iso {
+		isolatedMain()
+		return
+	}
 	r, ok := runners[*prop]
 	if !ok {
 		fmt.Fprintln(os.Stderr, "run: unknown property", *prop)
